@@ -414,3 +414,107 @@ def s_shape(report, label, api):
 def helper_attr_scan(text):
     code = strip_comments_and_strings(text)
     return [code.count("\n", 0, m.start()) + 1 for m in re.finditer(r"#\s*\[\s*(codec|serde)\s*\(", code)]
+
+
+# ---------------------------------------------------------------------------
+# S-flag: overflow flags are not dropped (error-discipline rule; C02 C04 C06 C07 C08 C09)
+#
+# Every call of a function named `overflowing_*` returns (value, flag).  The crate derives its wrapping_ forms by
+# dropping the flag on purpose; every other overflow verdict (checked_/saturating_/overflowing_, the parser's and
+# formatter's carries) is assembled from these flags.  The rule: in no function body may more calls of one
+# `overflowing_*` callee discard the flag than on the pinned tree (tables/flag_drops.json: per normalised function
+# and callee the maximal number of discarding calls in one body; generated by tools/dev/mk_flag_drops.py and
+# read through by hand).  A flag counts as used when `.1` of the call's destination is read anywhere in the body or
+# the whole tuple is copied / moved / returned.  Keys carry no positions or widths.
+
+RE_OVF_CALL = re.compile(r"^        (_\d+) = (.*?)(overflowing_\w+)(?:::<.*?>)?\((.*)\) -> ")
+FLAG_TABLE = os.path.join(C.VERIF, "tables", "flag_drops.json")
+FLAG_OWNER = (("from_str", "C08"), ("display", "C09"), ("macros_round", "C06"), ("cmp", "C03"), ("transcendental", "C12"),
+              ("wrapping", "C18"), ("traits", "C04"), ("int_helper", "C04"), ("float_helper", "C04"), ("convert", "C04"),
+              ("helpers", "C04"))
+
+
+def _norm_mir_fn(name):
+    n = re.sub(r"<impl at [^>]*?src/(\w+)\.rs:[^>]*>", r"<impl \1>", name)
+    n = re.sub(r"\bFixed[IU](8|16|32|64|128)\b", "FixedN", n)
+    n = re.sub(r"\b[iu](8|16|32|64|128|size)\b", "intN", n)
+    return n
+
+
+def _flag_owner(fn_key, meth):
+    """the property whose overflow verdicts the function serves: by source module, the arithmetic macros by
+    operation"""
+    for mod, pid in FLAG_OWNER:
+        if fn_key.startswith(mod + "::") or ("<impl %s>" % mod) in fn_key:
+            return pid
+    what = fn_key.rsplit("::", 1)[-1] + " " + meth
+    if re.search(r"ceil|floor|round", what):
+        return "C06"
+    if re.search(r"euclid|rem", what):
+        return "C07"
+    return "C02"
+
+
+def flag_drops(fns):
+    """-> {(fn key, callee): max number of flag-discarding calls in one body}, number of calls seen"""
+    out = {}
+    ncalls = 0
+    for f in fns:
+        lines = [l for b in f.order for l in f.blocks[b]]
+        text = "\n".join(lines)
+        per = {}
+        for l in lines:
+            m = RE_OVF_CALL.match(l)
+            if not m:
+                continue
+            dst, meth = m.group(1), m.group(3)
+            ncalls += 1
+            if dst == "_0":
+                continue
+            d = re.escape(dst)
+            if re.search(r"\(%s\.1: bool\)" % d, text):
+                continue
+            if re.search(r"(?:move|copy) %s(?![\w.])" % d, text) or re.search(r"&(?:mut )?%s(?![\w.])" % d, text):
+                continue
+            per[meth] = per.get(meth, 0) + 1
+        key = _norm_mir_fn(f.name)
+        for meth, n in per.items():
+            k = (key, meth)
+            out[k] = max(out.get(k, 0), n)
+    return out, ncalls
+
+
+def s_flag(report, label, pid):
+    from .run_a import EngineError
+    fns = parse_mir(mir_text())
+    drops, ncalls = flag_drops(fns)
+    table = C.load_json(FLAG_TABLE)
+    allowed = {(e["fn"], e["callee"]): e["max"] for e in table["entries"]}
+    if ncalls < table["calls_floor"]:
+        raise EngineError("S-flag: only %d overflowing_* calls found in the MIR, floor %d" % (ncalls, table["calls_floor"]))
+    # positive control: a planted body that discards one flag and uses another
+    planted = MirFn("from_str::planted", "_1: u8", "u8")
+    planted.order = ["bb0"]
+    planted.blocks["bb0"] = ["        _3 = core::num::<impl u8>::overflowing_add(copy _1, const 1_u8) -> [return: bb1, unwind continue];",
+                             "        _4 = copy (_3.0: u8);",
+                             "        _5 = core::num::<impl u8>::overflowing_mul(copy _4, const 10_u8) -> [return: bb2, unwind continue];",
+                             "        _6 = copy (_5.1: bool);"]
+    pd, _n = flag_drops([planted])
+    if pd != {("from_str::planted", "overflowing_add"): 1}:
+        raise EngineError("S-flag self-test failed: %r" % (pd,))
+    mine = 0
+    bad = 0
+    for (fn, meth), n in sorted(drops.items()):
+        owner = _flag_owner(fn, meth)
+        if owner != pid:
+            continue
+        mine += 1
+        if n > allowed.get((fn, meth), 0):
+            bad += 1
+            report.violation("S-flag:" + label, "S-flag|%s|%s" % (fn, meth),
+                             "the overflow flag of `%s` is discarded in `%s` (%d discarding call(s) in one body, %d on the "
+                             "pinned tree): an overflow verdict assembled from this flag can no longer be exact"
+                             % (meth, fn, n, allowed.get((fn, meth), 0)), {"fn": fn, "callee": meth, "drops": n})
+    return {"engine": "S-flag (MIR: no overflowing_* call discards its flag beyond the reviewed table)",
+            "overflowing_calls_seen": ncalls, "discarding_sites_of_this_property": mine, "violating": bad,
+            "positive_control": "found", "samples": [{"fn": k[0], "callee": k[1], "drops": v} for k, v in sorted(drops.items())[:3]]}
